@@ -403,6 +403,69 @@ def _copy_case(args):
     return cnt, out
 
 
+def _rewrite_case(args):
+    """Metadata stored a second time into a file that already holds the key
+    with another kind of value (int then float, bool then number, lists of
+    other lengths): what is read back is the value written last."""
+    scratch, = args
+    import dclab
+    from dclab.rtdc_dataset.writer import RTDCWriter
+    out = []
+    cnt = 0
+    p = scratch / f"c11_rewrite_{os.getpid()}.rtdc"
+    seqs = [
+        ("user", "my key", [2, 2.5]), ("user", "my key", [2.5, 2]),
+        ("user", "my key", [True, 0.8]), ("user", "my key", [0.005, 7]),
+        ("user", "my key", [[1, 2], [1, 2, 3]]),
+        ("user", "my key", ["text", 4.5]),
+        ("user", "my key", [4.5, "text"]),
+        ("online_filter", "deform min", [1, 0.005]),
+        ("online_filter", "deform max", [0.5, 2]),
+        ("qpi", "scale to filter", [True, 0.8]),
+        ("qpi", "scale to filter", [0.8, False]),
+        ("setup", "channel width", [20, 30.5]),
+        ("experiment", "run index", [1, 3]),
+    ]
+    for sec, key, vals in seqs:
+        for mode2 in ("append", "same-writer"):
+            cnt += 1
+            case = {"kind": "rewrite", "sec": sec, "key": key,
+                    "vals": repr(vals), "mode": mode2}
+            try:
+                with RTDCWriter(p, mode="reset") as hw:
+                    hw.store_metadata(gen.complete_meta(3, fl=False))
+                    hw.store_feature("deform", np.array([0.1, 0.2, 0.3]))
+                    hw.store_metadata({sec: {key: vals[0]}})
+                    if mode2 == "same-writer":
+                        hw.store_metadata({sec: {key: vals[1]}})
+                if mode2 == "append":
+                    with RTDCWriter(p, mode="append") as hw:
+                        hw.store_metadata({sec: {key: vals[1]}})
+                with dclab.new_dataset(p) as ds:
+                    got = ds.config[sec].get(key)
+                ref = dclab.rtdc_dataset.config.Configuration()
+                ref[sec][key] = vals[1]
+                exp = ref[sec][key]
+                if not same(got, exp if not isinstance(exp, list)
+                            else exp) and not (
+                        isinstance(exp, list) and same(got, np.array(exp))):
+                    out.append(violation(
+                        "dclab.rtdc_dataset.writer:RTDCWriter.store_metadata",
+                        "storage-roundtrip-differs", case,
+                        f"[{sec}] {key}: stored {vals[0]!r}, then "
+                        f"{vals[1]!r} ({mode2}); read back {got!r}, "
+                        f"expected {exp!r}",
+                        {"route": "rewrite", "type": "rewrite"}))
+            except BaseException as e:
+                out.append(violation(
+                    "dclab.rtdc_dataset.writer:RTDCWriter.store_metadata",
+                    "exception", case, f"{type(e).__name__}: {e}",
+                    {"route": "rewrite", "exc": type(e).__name__}))
+    if p.exists():
+        p.unlink()
+    return cnt, out
+
+
 def _file_case(args):
     """Routes through storage: configuration file, HDF5 attributes, export,
     compress."""
@@ -584,6 +647,7 @@ def run(ctx):
     res += par.pmap(_reject_case, [()])
     res += par.pmap(_registry_history_case, [()])
     res += par.pmap(_copy_case, [()])
+    res += par.pmap(_rewrite_case, [(ctx.scratch,)])
     res += par.pmap(_file_case, [(c, nch, ctx.scratch) for c in range(nch)])
     res += par.pmap(_handwritten_case, [(c, nch, ctx.scratch)
                                         for c in range(nch)])
@@ -627,6 +691,9 @@ def run(ctx):
 
 
 def replay(case, ctx):
+    if case["kind"] == "rewrite":
+        return [v for v in _rewrite_case((ctx.scratch,))[1]
+                if v["case"] == case]
     if case["kind"] == "copy":
         return [v for v in _copy_case(())[1] if v["case"] == case]
     if case["kind"] == "registry":
